@@ -165,18 +165,31 @@ Section Wiring.
     end.
 
   (* ---------------------------------------------------------------- channel/endpoint.rs *)
-  Record Endpoint := { e_scheme : scheme; e_host : option dname; e_tls : option TlsConnector }.
+  (* [e_scheme]/[e_host]: the endpoint URI; [e_origin]: the optional origin override
+     (scheme, host), used by AddOrigin for the :scheme/:authority of requests only *)
+  Record Endpoint := {
+    e_scheme : scheme; e_host : option dname;
+    e_origin : option (scheme * option dname);
+    e_tls : option TlsConnector }.
 
   (* Endpoint::from_static / from_shared / new_uri *)
   Definition endpoint_from_uri (s : scheme) (h : option dname) : Endpoint :=
-    {| e_scheme := s; e_host := h; e_tls := None |}.
+    {| e_scheme := s; e_host := h; e_origin := None; e_tls := None |}.
 
-  (* Endpoint::tls_config (Uri endpoints) *)
+  (* Endpoint::origin: Endpoint { origin: Some(origin), ..self } *)
+  Definition endpoint_origin (e : Endpoint) (o : scheme * option dname) : Endpoint :=
+    {| e_scheme := e_scheme e; e_host := e_host e; e_origin := Some o; e_tls := e_tls e |}.
+  Definition apply_origin (o : option (scheme * option dname)) (e : Endpoint) : Endpoint :=
+    match o with Some x => endpoint_origin e x | None => e end.
+
+  (* Endpoint::tls_config (Uri endpoints): into_tls_connector(uri) with the endpoint URI as it
+     is at the time of the call; the origin is not consulted *)
   Definition endpoint_tls_config (f : features) (e : Endpoint) (c : ClientTlsConfig)
       : cfg_err + Endpoint :=
     match into_tls_connector f c (e_host e) with
     | inl err => inl err
-    | inr t => inr {| e_scheme := e_scheme e; e_host := e_host e; e_tls := Some t |}
+    | inr t => inr {| e_scheme := e_scheme e; e_host := e_host e; e_origin := e_origin e;
+                      e_tls := Some t |}
     end.
 
   (* Endpoint::new (used by generated clients' [connect]) *)
@@ -562,6 +575,15 @@ Definition obs_call (native : list caid) (io_is_tcp : bool) (s : scheme) (h : op
   | inr ep => obs_of_call false io_is_tcp ep srv
   end.
 
+(* [Endpoint::from_shared(uri)], [.origin(o)] before and/or after [.tls_config(c)] *)
+Definition obs_call_origin (native : list caid) (o_before o_after : option (scheme * option dn))
+    (s : scheme) (h : option dn) (c : @ClientTlsConfig certid caid dn) (srv : @server certid caid) : tr :=
+  match endpoint_tls_config t_valid_name native t_webpki t_features
+          (apply_origin o_before (endpoint_from_uri s h)) c with
+  | inl e => tag 100 [Nn (cfg_err_code e)]
+  | inr ep => obs_of_call false true (apply_origin o_after ep) srv
+  end.
+
 (* a call through [Endpoint::new(uri)] *)
 Definition obs_call_endpoint_new (native : list caid) (s : scheme) (h : option dn)
     (srv : @server certid caid) : tr :=
@@ -694,6 +716,13 @@ Definition obs_cell_v (tls12 : bool) (x : cell) : tr :=
   end.
 
 Definition obs_cell := obs_cell_v false.
+(* the same cell with Endpoint::origin called before / after tls_config *)
+Definition obs_cell_origin (o_before o_after : option (scheme * option dn)) (x : cell) : tr :=
+  match cell_server x with
+  | Some srv => obs_call_origin cell_native o_before o_after Https (Some (cell_host x))
+                  (cell_client_cfg x) srv
+  | None => tag 101 []
+  end.
 (* the same cell against a listener restricted to TLS 1.2 *)
 Definition obs_cell_tls12 := obs_cell_v true.
 
